@@ -3,6 +3,7 @@
 package os
 
 import (
+	"io"
 	"io/fs"
 	realos "os"
 	"strconv"
@@ -69,6 +70,16 @@ func (f *File) Name() string                      { return f.h.Name }
 func (f *File) Sync() error                       { return nil }
 func (f *File) Truncate(size int64) error         { return f.h.Truncate(size) }
 func (f *File) Fd() uintptr                       { return ^uintptr(0) }
+func (f *File) Chmod(mode FileMode) error         { return nil }
+func (f *File) Chown(uid, gid int) error          { return nil }
+func (f *File) ReadFrom(r io.Reader) (int64, error) {
+	b, err := io.ReadAll(r)
+	if err != nil {
+		return 0, err
+	}
+	n, err := f.h.Write(b)
+	return int64(n), err
+}
 func (f *File) Stat() (FileInfo, error) {
 	i, err := f.h.Stat()
 	if err != nil {
